@@ -13,7 +13,7 @@ for d in "$HERE"/selftest/equivalent/*.diff; do
   (cd "$W" && git init -q . && git apply "$d") || { echo "EQUIV $name: patch does not apply"; rm -rf "$W"; continue; }
   t=$(cd "$W" && PYTHONPATH="$W" /venv/bin/python -m pytest -q -p no:cacheprovider unit_tests 2>&1 | tail -1)
   for c in $CHECKS; do
-    out=$(cd "$HERE" && G3DVC_REPO="$W" ./check $c --tier quick 2>&1); rc=$?
+    out=$(cd "$HERE" && G3DVC_EVIDENCE_DIR="$HERE/work/evidence-of-changed-trees" G3DVC_REPO="$W" ./check $c --tier quick 2>&1); rc=$?
     v=$(printf "%s\n" "$out" | grep -c "^VIOLATION")
     u=$(printf "%s\n" "$out" | grep -c "^UNDECIDED\|^ENGINE-ERROR")
     echo "EQUIV $name $c exit=$rc violations=$v undecided=$u tests=[$t]"
